@@ -262,7 +262,11 @@ def _periodic_checks(case, ctx, t, x_arr, tag):
         if bad.any():
             i = np.argwhere(bad)[0]
             ctx.fail(f"{tag}{name}-value", f"wrap({x[tuple(i)]!r}) = {y[tuple(i)]!r}; exact value modulo the period is {ref[tuple(i)]!r}", case)
-        bad = (y < lo - 0) | (y > hi)
+        # the output cannot be closer to a bound than its own width resolves (bounds held wider than the output, e.g. exact
+        # integers without a declared dtype, round to the output's width)
+        cast = np.float32 if env.width_of(y_i) == "float32" else np.float64
+        lo_c, hi_c = np.minimum(lo, lo.astype(cast).astype(np.float64)), np.maximum(hi, hi.astype(cast).astype(np.float64))
+        bad = (y < lo_c) | (y > hi_c)
         if bad.any():
             i = np.argwhere(bad)[0]
             ctx.fail(f"{tag}{name}-range", f"wrap({x[tuple(i)]!r}) = {y[tuple(i)]!r} outside [{lo[i[1]]!r}, {hi[i[1]]!r}]", case)
